@@ -23,7 +23,7 @@ ASSUMPTIONS = ['rules have pairwise distinct external nodes (replace_edge maps a
 
 
 def plan(tier, seed):
-    return dict(n=900 if tier == 'quick' else 80000, budget_s=75 if tier == 'quick' else 840, case_timeout=120)
+    return dict(n=1800 if tier == 'quick' else 80000, budget_s=75 if tier == 'quick' else 840, case_timeout=120)
 
 
 def gen_tree(rng, spec, max_inst):
